@@ -3,6 +3,7 @@ from __future__ import annotations
 import json, random
 from ..common import Result, Violation, run_driver, canon_hash
 from ..aghist import Impl, Gen, canon_obs, canon_out
+from .. import genexec
 
 ASSUMPTIONS = ['the graph is structurally consistent (converse child/parent lists, C09) and attackers mirror nodes (C11)',
                'the nodes passed to the incremental update are reached by the attacker and include every step reached since the surface was computed',
@@ -240,7 +241,10 @@ def _run(seed, tier, lean) -> Result:
                       'enters the surface through an incremental update')
     n = 500 if tier == 'quick' else 3000
     hists = [build_history(random.Random(rnd.getrandbits(48))) for _ in range(n)]
-    model = run_driver([{'op': 'ag_hist', 'case': i, 'ops': h} for i, h in enumerate(hists)]) if lean['build_ok'] else None
+    model = gen = None
+    if lean['build_ok']:
+        # third column: the same histories executed with the GENERATED code (Py/Gen/Query.lean, …)
+        model, gen = genexec.run_both([{'op': 'ag_hist', 'case': i, 'ops': h} for i, h in enumerate(hists)], 'gen_ag_hist', every=2)
     for hi, ops in enumerate(hists):
         res.evaluations += 1
         probs, at, nontriv = oracle(ops)
@@ -256,6 +260,12 @@ def _run(seed, tier, lean) -> Result:
                 res.violations.append(Violation(what='driver rejected a history: ' + model[hi]['error'], fingerprint='C12:driver-error',
                                                 replay={'ops': ops}, no_failing_input=True)); continue
             im = Impl()
+            go_steps = None
+            if gen[hi] is None: pass                  # every second history gets the third column
+            elif 'error' in gen[hi]:
+                res.violations.append(genexec.driver_error('C12', gen[hi]['error'], {'ops': ops}))
+            else:
+                go_steps = gen[hi]['model']
             for i, op in enumerate(ops):
                 st = im.step(op); mo = model[hi]['model'][i]
                 a = [st['err'], canon_out(op, st['out']), canon_obs(st['obs'])]
@@ -265,6 +275,14 @@ def _run(seed, tier, lean) -> Result:
                         fingerprint=f'C12:model-divergence:{op["k"]}', replay={'ops': ops[:i + 1], 'impl': a, 'model': b}, no_failing_input=True))
                     break
                 if st['out'] != mo['out']: res.drift += 1
+                if go_steps is not None:
+                    go = go_steps[i]
+                    res.bump('generated_code_steps_compared')
+                    if not genexec.ag_step_same(op, st, a, go, canon_obs, canon_out):
+                        res.violations.append(genexec.divergence('C12', op['k'], f'at step {i} ({op["k"]}) of a history',
+                            {'ops': ops[:i + 1], 'impl': [st['err'], st['out'], st['obs'], st['other']],
+                             'generated': [go['err'], go['out'], go['obs'], go['other']], 'hand_model': b}))
+                        break
         if len(res.samples) < 2: res.samples.append({'ops': ops[:14]})
     return res
 
